@@ -78,6 +78,10 @@ pub const CONTENT_POOL: &[&str] = &[
     "\u{0}\u{1f}",
     "last line ends in a lone carriage return\r",
     "\r",
+    // long first lines of multi-byte characters (every byte offset falls inside some character)
+    "aééééééééééééééééééééééééééééééééééééééééééééééééééééééééééééé\nsecond",
+    "漢漢漢漢漢漢漢漢漢漢漢漢漢漢漢漢漢漢漢漢漢漢漢漢漢漢漢漢漢漢漢漢漢漢漢漢漢漢漢漢",
+    "ab😀😀😀😀😀😀😀😀😀😀😀😀😀😀😀😀😀😀😀😀😀😀😀😀😀😀😀😀😀😀",
 ];
 
 pub const FILE_POOL: &[&str] = &["out.js", "", "dist/ö.js", "a\"b", "/abs/out.js"];
